@@ -343,3 +343,187 @@ def alphabet_sweep_docs(per_doc=4):
         b.features.add('alphabet-sweep')
         out.append((_finish(b, xml, [root], []), positions))
     return out
+
+
+# ---------------------------------------------------------------- value forms: missing values and backslashes
+# Two more classes of attribute syntax (both: whole families, drawn at random in every element kind and position):
+#
+#   VALUE x PRESENCE   an attribute is written `name`, `name=value` or -- the form html_gen never writes -- `name=`
+#                      with NOTHING after the equals sign: `=` directly before `>`, before ` />` / `/>`, before white
+#                      space followed by the next attribute or by the end of the tag (half-typed `<a href=>`,
+#                      `<input value= class="c">`, `<img src= />`; also after bracketed / directive names:
+#                      `[prop]=`, `*ngIf=`).  Such an attribute HAS NO VALUE: the record carries the name range only,
+#                      and the tag ends where it would end without the `=`.  The explicitly written empty values `""`,
+#                      `''`, `{}` are values (ranges of length 2) and are drawn more often here as well.
+#   BACKSLASH          backslashes in every place of a tag where they may stand.  Inside a paired token -- an
+#                      expression value `{...}` or a bracketed name `[...]`, `(...)`, `{...}` -- a backslash takes the
+#                      next character out of the pairing (JavaScript: regular-expression literals `{/\}>/}`, escaped
+#                      quotes and braces in strings and template text), so `\}` `\]` `\)` do not close, `\{` `\[` `\(`
+#                      do not open, `\"` `\'` do not start a string, and `\\` is a backslash that escapes nothing
+#                      (`{a\\}` ends at that brace).  Inside a quoted string of an expression a backslash escapes the
+#                      next character too (`{"a\"}"}`).  An unquoted value may contain backslashes anywhere; they mean
+#                      nothing there (`a=x\y`, `b=\`).  Quoted values (HTML knows no escapes in them) get backslashes
+#                      only where JavaScript-style and HTML-style reading agree: before a character that is neither
+#                      the quote nor a backslash, and doubled (`"C:\\dir\\"`, `"a\b"`).
+ESC_PLAIN = list('abxy01 ') + ['>', '<', '=', '/', ' => ', '.', '<b>', '/>', '</a>', '>>']
+ESC_ANY = ['\\n', '\\d', '\\/', '\\>', '\\<', '\\ ', '\\\\', '\\"', "\\'", '\\=']
+PAIRS = {'{': '}', '[': ']', '(': ')'}
+
+
+class YBuilder(XBuilder):
+    """XBuilder plus the classes VALUE x PRESENCE and BACKSLASH.  `p_new`: share of attributes written in one of the
+    new forms."""
+
+    def __init__(self, rng, xml, max_nodes, max_depth, shape, names, specials, p_new=0.5):
+        super().__init__(rng, xml, max_nodes, max_depth, shape, names, specials)
+        self.p_new = p_new
+        self.after_bare_eq = False
+
+    # ---- pieces
+    def esc_pair_body(self, op, depth=0):
+        """text between `op` and its closing character: every unescaped `op` / closer inside is balanced, quotes are
+        balanced unless escaped, every backslash is followed by the character it escapes"""
+        rng = self.rng
+        cl = PAIRS[op]
+        others = [c for c in '{}[]()' if c not in (op, cl)]
+        parts = []
+        for _ in range(rng.choice([1, 1, 2, 3, 4, 6])):
+            r = rng.random()
+            if r < 0.3:
+                parts.append('\\' + rng.choice([cl, cl, cl, op]))
+                self.features.add('escape-pair-delimiter')
+            elif r < 0.45:
+                parts.append(rng.choice(ESC_ANY))
+            elif r < 0.55 and depth < 2:
+                parts.append(op + self.esc_pair_body(op, depth + 1) + cl)
+            elif r < 0.68:
+                q = rng.choice('"\'')
+                inner = ''.join(rng.choice(['a', ' ', '>', cl, op, '/>', '\\' + q, '\\\\', '\\' + cl, '\\n'])
+                                for _ in range(rng.randint(0, 4)))
+                if '\\' in inner:
+                    self.features.add('escape-in-expression-string')
+                parts.append(q + inner + q)
+            elif r < 0.75:
+                # a regular-expression literal as JSX writes it
+                parts.append('/' + rng.choice(['\\' + cl + '>', '[^\\' + cl + ']+\\' + op, '\\' + cl, 'a\\' + cl + 'b>', '\\\\'])
+                             + '/' + rng.choice(['', 'g', '.test(x)']))
+                self.features.add('escape-pair-delimiter')
+            elif r < 0.8:
+                parts.append(rng.choice(others))
+            else:
+                parts.append(rng.choice(ESC_PLAIN))
+        s = ''.join(parts)
+        if '>' in s:
+            self.features.add('attr-value-with->')
+        return s
+
+    def attr_name_y(self):
+        rng = self.rng
+        r = rng.random()
+        if r < 0.3:
+            op = rng.choice('[[({')
+            body = self.esc_pair_body(op)
+            if op == '{':
+                body = '...' + body
+            self.features.add('attr-name-paired-with-escape')
+            return op + body + PAIRS[op]
+        if r < 0.45:
+            self.features.add('attr-name-fancy')
+            return rng.choice(hg.FANCY_NAMES)
+        if self.attr_pool and r < 0.7:
+            return rng.choice(self.attr_pool)
+        return rng.choice(hg.ATTR_NAMES)
+
+    def attribute(self, force_class=False):
+        rng = self.rng
+        self.after_bare_eq = False
+        if force_class or rng.random() >= self.p_new:
+            return super().attribute(force_class)
+        name = self.attr_name_y()
+        ns = self.pos
+        self.emit(name)
+        ne = self.pos
+        form = rng.choice(['bare-eq', 'bare-eq', 'esc-expr', 'esc-expr', 'esc-unq', 'esc-quoted', 'empty', 'none'])
+        if name.startswith('{') and form != 'none' and rng.random() < 0.7:
+            form = 'none'
+        if form == 'none':
+            self.features.add('attr-boolean')
+            return Attr(name, ns, ne)
+        self.emit('=')
+        if form == 'bare-eq':
+            # nothing after `=`: the caller writes white space, `>` or `/>` next
+            self.features.add('attr-equals-without-value')
+            self.after_bare_eq = True
+            return Attr(name, ns, ne)
+        vs = self.pos
+        if form == 'esc-expr':
+            body = self.esc_pair_body('{')
+            self.emit('{' + body + '}')
+            inner = (vs + 1, vs + 1 + len(body))
+            self.features.add('attr-expression')
+            if '\\' in body:
+                self.features.add('attr-expression-with-backslash')
+        elif form == 'esc-unq':
+            n = rng.randint(1, 5)
+            k = rng.randrange(n)
+            body = ''.join('\\' if i == k or rng.random() < 0.2 else rng.choice(hg.UCH) for i in range(n))
+            self.emit(body)
+            inner = (vs, vs + len(body))
+            self.features.add('attr-unquoted-with-backslash')
+        elif form == 'esc-quoted':
+            q = rng.choice('"\'')
+            other = "'" if q == '"' else '"'
+            parts = []
+            for _ in range(rng.randint(1, 4)):
+                r = rng.random()
+                parts.append('\\\\' if r < 0.35 else '\\' + rng.choice(['n', 'b', '>', ' ', other, '}', '/']) if r < 0.7
+                             else rng.choice(hg.QCH + [other]))
+            body = ''.join(parts)
+            self.emit(q + body + q)
+            inner = (vs + 1, vs + 1 + len(body))
+            self.features.add('attr-quoted-with-backslash')
+        else:
+            lit = rng.choice(['""', "''", '{}'])
+            self.emit(lit)
+            inner = (vs + 1, vs + 1)
+            self.features.add('attr-empty-value-written')
+        return Attr(name, ns, ne, True, vs, self.pos, inner)
+
+    def open_tag(self, name, self_close, attrs_spec=None):
+        rng = self.rng
+        if attrs_spec is not None:
+            return super().open_tag(name, self_close, attrs_spec)
+        start = self.pos
+        self.emit('<' + name)
+        attrs = []
+        for _ in range(rng.choice([0, 0, 1, 1, 1, 2, 3, 5])):
+            self.emit(rng.choice(hg.WS))
+            attrs.append(self.attribute(force_class=rng.random() < 0.08))
+        if self_close:
+            self.emit(rng.choice(['/', ' /', '\n/', ' /']))
+        else:
+            self.emit(rng.choice(['', '', '', ' ', '\n']))
+        self.emit('>')
+        if self.after_bare_eq:
+            self.features.add('equals-before-tag-end')
+        self.after_bare_eq = False
+        return (start, self.pos), attrs
+
+
+def gen_document_y(rng, xml=False, names='plain', max_nodes=14, max_depth=5, p_new=0.5):
+    """random tree whose attributes use the forms of VALUE x PRESENCE and BACKSLASH next to html_gen's forms"""
+    shape = rng.choice(['mixed', 'mixed', 'deep'])
+    budget = rng.choice([1, 2, 3, 4, 6, 8, 10, 14])
+    if shape == 'deep':
+        budget = max(budget, 4)
+    b = YBuilder(rng, xml, min(budget, max_nodes), max_depth, shape, names, 0.04, p_new)
+    if rng.random() < 0.2:
+        b.non_element()
+    roots = []
+    for _ in range(rng.choice([1, 1, 1, 2, 3])):
+        if b.budget <= 0:
+            break
+        roots.append(b.element(1, None))
+        if rng.random() < 0.4:
+            b.non_element()
+    return _finish(b, xml, roots, ['shape-' + shape, 'class-value-forms', 'class-names-' + names])
